@@ -439,7 +439,8 @@ func c13(run *ev.Run, tier string) {
 		}
 		y += "- dst: /var/log/ovr-direct-ghost-for-deb.log\n  type: ghost\n  packager: deb\n" +
 			"- src: " + payload + "\n  dst: /usr/share/doc/ovr/direct-readme-for-apk\n  type: readme\n  packager: apk\n" +
-			"- src: " + payload + "\n  dst: /usr/share/doc/ovr/direct-licence-for-ipk\n  type: licence\n  packager: ipk\n"
+			"- src: " + payload + "\n  dst: /usr/share/doc/ovr/direct-licence-for-ipk\n  type: licence\n  packager: ipk\n" +
+			"- src: " + payload + "\n  dst: /usr/share/doc/ovr/direct-changelog-for-rpm\n  type: \"" + files.TypeDebChangelog + "\"\n  packager: rpm\n"
 		run.Case("settings-filled-in-by-the-caller|"+f, true)
 		cfg, err := parseYAML(y, nil)
 		if err != nil {
@@ -463,7 +464,7 @@ func c13(run *ev.Run, tier string) {
 				run.Violate("C13/"+f+"/per-packager-entry-in-wrong-package/settings-filled-in-by-the-caller", map[string]any{"entry": name, "present": present})
 			}
 		}
-		for _, nowhere := range []string{"/var/log/ovr-direct-ghost-for-deb.log", "/usr/share/doc/ovr/direct-readme-for-apk", "/usr/share/doc/ovr/direct-licence-for-ipk"} {
+		for _, nowhere := range []string{"/var/log/ovr-direct-ghost-for-deb.log", "/usr/share/doc/ovr/direct-readme-for-apk", "/usr/share/doc/ovr/direct-licence-for-ipk", "/usr/share/doc/ovr/direct-changelog-for-rpm"} {
 			if p.Find(nowhere) != nil {
 				run.Violate("C13/"+f+"/per-packager-entry-in-wrong-package/settings-filled-in-by-the-caller", map[string]any{"entry": nowhere, "present": true})
 			}
